@@ -80,21 +80,14 @@ Proof.
   apply filter_In in B. apply in_map_iff. exists x. split; [exact A|apply B].
 Qed.
 
-Lemma fold_without_in m slow : forall b,
-  In m (fold_left (fun b id => without id b) slow b) <-> In m b /\ ~ In (m_id m) slow.
+Lemma nodup_ids_filter (p : member -> bool) l : NoDup (ids l) -> NoDup (ids (filter p l)).
 Proof.
-  induction slow as [|i slow IH]; intros b; cbn [fold_left].
-  - split; [intros H; split; [exact H|intros []]|intros [H _]; exact H].
-  - rewrite IH, without_in. cbn [In]. split.
-    + intros [[A B] C]. split; [exact A|]. intros [D|D]; [congruence|contradiction].
-    + intros [A B]. split; [split; [exact A|]|]; intros D; apply B; [left; congruence|right; exact D].
-Qed.
-
-Lemma nodup_ids_fold_without slow : forall b,
-  NoDup (ids b) -> NoDup (ids (fold_left (fun b id => without id b) slow b)).
-Proof.
-  induction slow as [|i slow IH]; intros b H; cbn [fold_left]; [exact H|].
-  apply IH. apply nodup_ids_without. exact H.
+  unfold ids. induction l as [|m l IH]; cbn [filter map]; intros H; [constructor|].
+  inversion H as [|? ? Hn Hr]; subst.
+  destruct (p m); cbn [map]; [|apply IH; exact Hr].
+  constructor; [|apply IH; exact Hr].
+  intros Hin. apply Hn. apply in_map_iff in Hin. destruct Hin as (x & A & B).
+  apply filter_In in B. apply in_map_iff. exists x. split; [exact A|apply B].
 Qed.
 
 (* histories seen from their end *)
@@ -195,8 +188,8 @@ Lemma hub_inv_removal evs h e t (gone : N -> bool) b' :
   (forall x, In x b' <-> In x (bucket t h) /\ gone (m_id x) = false) ->
   NoDup (ids b') ->
   (forall id, gone id = true -> topic_agrees evs id t) ->
-  (forall r id, present_rev (e :: r) id = if gone id then false else present_rev r id) ->
-  (forall r id, joined_as_rev (e :: r) id = joined_as_rev r id) ->
+  (forall id, present_rev (e :: rev evs) id = if gone id then false else present_rev (rev evs) id) ->
+  (forall id, joined_as_rev (e :: rev evs) id = joined_as_rev (rev evs) id) ->
   hub_inv (evs ++ [e]) (set_bucket t b' h).
 Proof.
   intros Hinv Hb' Hnd Hgone Hpres Hjoin.
@@ -335,21 +328,28 @@ Proof.
       rewrite !map_app in Hn. apply nodup_app in Hn. destruct Hn as (_ & Hn & _).
       apply nodup_app in Hn. apply Hn.
     + intros i Hi. cbn [event_ok] in Hok. assert (i = id) by lia. subst. exact Hok.
-    + intros r i. cbn [present_rev]. rewrite N.eqb_sym. reflexivity.
+    + intros i. cbn [present_rev]. rewrite N.eqb_sym. reflexivity.
     + reflexivity.
-  - cbn [hub_step]. apply (hub_inv_removal evs h _ t (fun i => existsb (N.eqb i) slow)); try assumption.
-    + intros x. rewrite fold_without_in. split; intros [A B]; (split; [exact A|]).
-      * destruct (existsb (N.eqb (m_id x)) slow) eqn:E; [|reflexivity]. exfalso. apply B.
-        apply existsb_exists in E. destruct E as (y & Hy & Hxy). apply N.eqb_eq in Hxy. subst. exact Hy.
-      * intros Hin. assert (existsb (N.eqb (m_id x)) slow = true); [|congruence].
-        apply existsb_exists. exists (m_id x). split; [exact Hin|apply N.eqb_refl].
-    + apply nodup_ids_fold_without. pose proof (inv_nodup _ _ Hinv) as Hn.
+  - cbn [hub_step].
+    apply (hub_inv_removal evs h _ t (fun i => existsb (N.eqb i) slow && negb (internal_rev (rev evs) i))); try assumption.
+    + intros x. rewrite filter_In. split; intros [A B]; (split; [exact A|]).
+      * assert (Hx : In x (listed h)).
+        { destruct (split_bucket t [] h) as (l1 & l2 & HL & _). rewrite HL. apply in_mid. left. exact A. }
+        destruct (inv_identity _ _ Hinv x Hx) as (m0 & Hj & Hid). unfold internal_rev. unfold joined_as in Hj. rewrite Hj.
+        assert (Hi : m_internal x = m_internal m0) by (unfold identity in Hid; inversion Hid; reflexivity).
+        rewrite <- Hi. destruct (existsb (N.eqb (m_id x)) slow && negb (m_internal x)); [discriminate|reflexivity].
+      * assert (Hx : In x (listed h)).
+        { destruct (split_bucket t [] h) as (l1 & l2 & HL & _). rewrite HL. apply in_mid. left. exact A. }
+        destruct (inv_identity _ _ Hinv x Hx) as (m0 & Hj & Hid). unfold internal_rev in B. unfold joined_as in Hj. rewrite Hj in B.
+        assert (Hi : m_internal x = m_internal m0) by (unfold identity in Hid; inversion Hid; reflexivity).
+        rewrite Hi, B. reflexivity.
+    + apply nodup_ids_filter. pose proof (inv_nodup _ _ Hinv) as Hn.
       destruct (split_bucket t [] h) as (l1 & l2 & HL & _). rewrite HL in Hn. unfold ids in *.
       rewrite !map_app in Hn. apply nodup_app in Hn. destruct Hn as (_ & Hn & _).
       apply nodup_app in Hn. apply Hn.
-    + intros i Hi. cbn [event_ok] in Hok. apply Hok. apply existsb_exists in Hi.
-      destruct Hi as (y & Hy & Hxy). apply N.eqb_eq in Hxy. subst. exact Hy.
-    + reflexivity.
+    + intros i Hi. cbn [event_ok] in Hok. apply Hok. apply andb_true_iff in Hi. destruct Hi as [Hi _].
+      apply existsb_exists in Hi. destruct Hi as (y & Hy & Hxy). apply N.eqb_eq in Hxy. subst. exact Hy.
+    + intros i. cbn [present_rev]. reflexivity.
     + reflexivity.
   - apply hub_inv_traffic. exact Hinv.
 Qed.
@@ -681,7 +681,7 @@ Qed.
 (* before the repair (fpsFromNs = 1/(ns*1e-9) as is): one member with mean inter-arrival 0 ns
    and every listing fails to encode - statsReporter returns, /status fails (F13) *)
 Definition zero_mean_member : member :=
-  mk_member 7 [102; 49; 51] (Some [[114; 101; 97; 100]]) true true [] [] [] []
+  mk_member 7 [102; 49; 51] (Some [[114; 101; 97; 100]]) true true [] [] [] [] false
             (mk_frames 1 0 [53] NonFinite) (mk_frames 0 0 lex_zero (Finite lex_zero)).
 
 Lemma encode_total_unguarded_refuted_lemma :
@@ -771,8 +771,9 @@ Proof.
   - destruct (i =? id) eqn:E.
     + exists (Unregister i t). split; [left; reflexivity|cbn; lia].
     + destruct (IH Hp (ex_intro _ m Hj)) as (e & He & Hr). exists e. split; [right; exact He|exact Hr].
-  - destruct (existsb (N.eqb id) slow) eqn:E.
-    + exists (Broadcast t slow). split; [left; reflexivity|]. cbn. apply existsb_exists in E.
+  - destruct (existsb (N.eqb id) slow && negb (internal_rev r id)) eqn:E.
+    + exists (Broadcast t slow). split; [left; reflexivity|]. cbn. apply andb_true_iff in E. destruct E as [E _].
+      apply existsb_exists in E.
       destruct E as (y & Hy & Hxy). apply N.eqb_eq in Hxy. subst. exact Hy.
     + destruct (IH Hp (ex_intro _ m Hj)) as (e & He & Hr). exists e. split; [right; exact He|exact Hr].
   - destruct (IH Hp (ex_intro _ m Hj)) as (e & He & Hr). exists e. split; [right; exact He|exact Hr].
@@ -786,26 +787,51 @@ Proof.
   exists e. split; [apply in_rev; exact He|exact Hr].
 Qed.
 
-(* "the relay's own stats feeder is always listed" does not hold: the feeder is a member of topic
-   stats like any other and a burst on that topic gets it evicted (it never unregisters itself) *)
-Definition ex_feeder : member :=
+(* the relay's own reporter (internal) is never evicted: once registered it stays listed unless it
+   unregisters, which the code never does *)
+Lemma internal_stays_rev revs id m :
+  joined_as_rev revs id = Some m -> m_internal m = true ->
+  (forall t, ~ In (Unregister id t) revs) -> present_rev revs id = true.
+Proof.
+  induction revs as [|e r IH]; cbn [joined_as_rev present_rev]; intros Hj Hi Hu; [discriminate|].
+  assert (Hu' : forall t, ~ In (Unregister id t) r) by (intros t H; apply (Hu t); right; exact H).
+  destruct e as [m'|i t|t slow|i dir f].
+  - destruct (m_id m' =? id); [reflexivity|apply IH; assumption].
+  - destruct (i =? id) eqn:E; [|apply IH; assumption].
+    exfalso. apply (Hu t). left. f_equal. lia.
+  - unfold internal_rev. rewrite Hj, Hi. cbn [negb]. rewrite andb_false_r. apply IH; assumption.
+  - apply IH; assumption.
+Qed.
+
+Theorem feeder_always_listed_lemma evs id m :
+  wf_history evs -> joined_as evs id = Some m -> m_internal m = true ->
+  (forall t, ~ In (Unregister id t) evs) ->
+  present evs id = true /\ In id (map m_id (listed (hub_run evs))).
+Proof.
+  intros Hwf Hj Hi Hu.
+  assert (Hp : present evs id = true).
+  { unfold present, joined_as in *. apply (internal_stays_rev _ id m Hj Hi). intros t H. apply (Hu t). apply in_rev. exact H. }
+  split; [exact Hp|]. apply (inv_present _ _ (hub_inv_run evs Hwf)). exact Hp.
+Qed.
+
+(* before the repair the reporter was a member like any other: the same burst evicts a member
+   that is not marked internal although it never unregisters (F15) *)
+Definition ex_reporter (internal : bool) : member :=
   mk_member 1 (bytes_of "stats") (Some [bytes_of "read"; bytes_of "stats"; bytes_of "write"]) true true
-            [] (bytes_of "0001-01-01T00:00:00Z") (bytes_of "crossbar") (bytes_of "internal")
+            [] (bytes_of "0001-01-01T00:00:00Z") (bytes_of "crossbar") (bytes_of "internal") internal
             (mk_frames 0 0 lex_zero (Finite lex_zero)) (mk_frames 0 0 lex_zero (Finite lex_zero)).
 Definition ex_writer : member :=
-  mk_member 2 (bytes_of "stats") (Some [bytes_of "write"]) false true [] [] [] []
+  mk_member 2 (bytes_of "stats") (Some [bytes_of "write"]) false true [] [] [] [] false
             (mk_frames 0 0 lex_zero (Finite lex_zero)) (mk_frames 0 0 lex_zero (Finite lex_zero)).
-Definition ex_burst : list event :=
-  [Register ex_feeder; Register ex_writer; Traffic 2 Tx (mk_frames 400 9 [49; 52] (Finite [49]));
+Definition ex_burst (internal : bool) : list event :=
+  [Register (ex_reporter internal); Register ex_writer; Traffic 2 Tx (mk_frames 1000 9 [49; 52] (Finite [49]));
    Broadcast (bytes_of "stats") [1]].
 
-Lemma feeder_always_listed_refuted_lemma :
-  wf_history ex_burst /\ In (Register ex_feeder) ex_burst /\
-  (forall t, ~ In (Unregister (m_id ex_feeder) t) ex_burst) /\
-  present ex_burst (m_id ex_feeder) = false /\
-  map m_id (listed (hub_run ex_burst)) = [2].
+Lemma burst_example_lemma :
+  (forall b, wf_history (ex_burst b)) /\
+  map m_id (listed (hub_run (ex_burst false))) = [2] /\ present (ex_burst false) 1 = false /\
+  map m_id (listed (hub_run (ex_burst true))) = [2; 1] /\ present (ex_burst true) 1 = true.
 Proof.
-  split; [cbn; repeat split; try reflexivity; intros id [<-|[]]; reflexivity|].
-  split; [left; reflexivity|]. split; [|split; vm_compute; reflexivity].
-  intros t [H|[H|[H|[H|[]]]]]; discriminate H.
+  split; [intros b; cbn; repeat split; try reflexivity; intros id [<-|[]]; reflexivity|].
+  repeat split; vm_compute; reflexivity.
 Qed.
